@@ -52,9 +52,12 @@ c0.close_db_conn() if False else c0.db_conn.close()
 PAGES = ["plain text", "{{a|x}} and {{a}}", "{{loop}}", "<pre>unclosed pre\n* li", "==H==\n* a\n** b", "{{#expr:1+}} {{#if:x|y}}",
          "{| \n| cell\n|}", "'''bold ''it", "{{:Foo:Bar}}", "{{PAGESIZE:Foo:Bar}}", "{{#lst:Glossary|s}}", "{{:Glossary}}",
          "<foo>x</foo> <b>y</b>", "{{h|z}}", "[[L|{{a}}]] [http://x y]", "<nowiki>{{a}}</nowiki><!-- c -->", "{{#invoke}}",
-         "{{nosuch|{{a}}}}", ":; mixed\n#* list", "<ref name=x>r</ref><references/>", "{{a|\n}}", "</pre> </b> |}", "{{#tag:span|x}}"]
+         "{{nosuch|{{a}}}}", ":; mixed\n#* list", "<ref name=x>r</ref><references/>", "{{a|\n}}", "</pre> </b> |}", "{{#tag:span|x}}",
+         "{{t|" * 700 + "x" + "}}" * 700, "[[L|" * 700 + "x"]
+DEEP = [i for i, p in enumerate(PAGES) if len(p) > 1000]
 if tier == "quick":
-    PAGES = PAGES[:16]
+    PAGES = PAGES[:16] + PAGES[-2:]
+    DEEP = [i for i, p in enumerate(PAGES) if len(p) > 1000]
 
 
 def run_page(ctx, idx, page, mode):
@@ -123,6 +126,10 @@ for _ in range(60 if tier == "quick" else 1500):
     history(seq, modes, pre_contexts=rng.random() < 0.4)
 for i in range(n):
     history([i], ["both"], pre_contexts=True)
+# a page whose processing is aborted by an exception (very deep nesting), then ordinary pages
+for d in DEEP:
+    for j in range(min(n, 8)):
+        history([d, j], ["parse", "both"])
 samples.append({"history": [PAGES[0], PAGES[3], PAGES[4]]})
 import shutil
 shutil.rmtree(TMP, ignore_errors=True)
